@@ -13,6 +13,7 @@ ASSUMPTIONS = [
     "DECIDED: (d) count-min width = ceil(2/e) gives 2/width <= e as Python evaluates it, for all binary64 e in the stated binades, EXCEPT the class where the rounded quotient 2/e is itself an integer (known finding F10: there the check 2/width <= e fails by one ulp)",
     "DECIDED: (f) bloom_length = ceil(number_bits / 8.0) equals (m + 7) div 8 and export_size = bloom_length + 20 for every m < 2^32; counting Bloom 4*m + 20",
     "DECIDED structurally (g): for est in {1, 10, 1000} and every accepted rate the executed Bloom sizing equals the documented m = ceil(-n ln p32 / ln^2 2), k = round(ln 2 m / n); the executed count-min depth equals ceil(-ln(1-c)/ln 2); the executed cuckoo fingerprint width equals ceil(log2(1/e) + log2(b) + 1) for bucket sizes 1,2,3,4,5,7 - with ln / log2 UNINTERPRETED (equality for every interpretation). A counterexample is only reported if, replayed with the real math functions, the accuracy clause itself fails (k >= 1 and theoretical rate <= 1.07 p; 1 - 2^-depth >= c; 2b/2^bits <= e); otherwise the model is blocked and the search continues (8 tries, then inconclusive)",
+    "cuckoo fingerprint clause: log2 is uninterpreted except at the integer breakpoints of its one application 1/e (x >= 2^k -> log2 x >= k, x <= 2^k -> log2 x <= k for k = 0..32: monotone and exact at powers of two, which glibc's log2 is); models are still replayed with the real log2 before anything is reported",
     "NOT DECIDED (out of reach, DESIGN section 8): that the documented formulas THEMSELVES meet the accuracy clauses for every request (needs the values of ln / log2 / exp: only evaluated at replayed models), and symbolic est_elements (binary64 divide/round over two symbolic operands: unknown after 120 s)",
 ]
 BOUNDS = {
@@ -283,9 +284,14 @@ def cuckoo_bits(ctx, cfg):
     install()
     e = ctx.fp("e")
     ctx.assume(z3.And(z3.fpGT(e.t, z3.FPVal(2.0 ** -31, fp.D)), z3.fpLT(e.t, z3.FPVal(0.5, fp.D))))
+    D, RNE = fp.D, fp.RNE
+    # log2 stays uninterpreted except for what every libm guarantees at the integer breakpoints: it is monotone and exact at
+    # powers of two, so x >= 2^k -> log2(x) >= k and x <= 2^k -> log2(x) <= k (k = 0..32) for the one application 1/e
+    x = z3.fpDiv(RNE, z3.FPVal(1.0, D), e.t)
+    ctx.assume(z3.And([z3.And(z3.Implies(z3.fpGEQ(x, z3.FPVal(2.0 ** k, D)), z3.fpGEQ(fp.LOG2(x), z3.FPVal(float(k), D))),
+                              z3.Implies(z3.fpLEQ(x, z3.FPVal(2.0 ** k, D)), z3.fpLEQ(fp.LOG2(x), z3.FPVal(float(k), D)))) for k in range(0, 33)]))
     f = CuckooFilter(capacity=4, bucket_size=b)
     f._set_error_rate(e)
-    D, RNE = fp.D, fp.RNE
     # documented: bits = ceil(log2(1/e) + log2(bucket_size) + 1)
     ref = z3.fpToSBV(z3.RTP(), z3.fpAdd(RNE, z3.fpAdd(RNE, fp.LOG2(z3.fpDiv(RNE, z3.FPVal(1.0, D), e.t)), z3.FPVal(math.log2(b), D)), z3.FPVal(1.0, D)),
                      z3.BitVecSort(64))
